@@ -1,5 +1,6 @@
 import Std.Data.HashMap
 import Driver.Common
+import Driver.OpsBatch
 import Driver.OpsBits
 import Driver.OpsCode
 import Driver.OpsDeform
@@ -13,7 +14,7 @@ open Panqec
     (`none` = not my op); the first that answers wins. -/
 
 def handlers : List (List String → Option String) :=
-  [Drv.handleBits, Drv.handleCode, Drv.handleDeform, Drv.handleGui, Drv.handleMask, Drv.handleNoise]
+  [Drv.handleBatch, Drv.handleBits, Drv.handleCode, Drv.handleDeform, Drv.handleGui, Drv.handleMask, Drv.handleNoise]
 
 def handleToks (toks : List String) : String :=
   match handlers.findSome? (fun h => h toks) with
